@@ -104,8 +104,25 @@ func immutableCapture(b ssa.Value, mc *ssa.MakeClosure) bool {
 		case *ssa.Store:
 			if x.Addr == al {
 				stores++
-				if x.Block() != mc.Block() && !x.Block().Dominates(mc.Block()) {
+				if x.Block() == mc.Block() {
+					before := false
+					for _, in := range x.Block().Instrs {
+						if in == ssa.Instruction(x) {
+							before = true
+							break
+						}
+						if in == ssa.Instruction(mc) {
+							break
+						}
+					}
+					if !before {
+						return false
+					}
+				} else if !x.Block().Dominates(mc.Block()) {
 					return false
+				}
+				if reachesAgain(mc.Block(), x.Block(), al.Block()) {
+					return false // the store can run again after the closure was made (loop), on the same cell
 				}
 			} else {
 				return false // address escapes into memory
@@ -228,4 +245,27 @@ func (u *UnitGen) dispatchClosure(fr *Frame, st *State, instr ssa.Instruction, c
 		}
 	}
 	return rs
+}
+
+// reachesAgain: some path from the end of block from reaches block to without passing through the block
+// that creates the cell (a new cell per pass).
+func reachesAgain(from, to, cell *ssa.BasicBlock) bool {
+	seen := map[*ssa.BasicBlock]bool{}
+	work := append([]*ssa.BasicBlock{}, from.Succs...)
+	for len(work) > 0 {
+		b := work[len(work)-1]
+		work = work[:len(work)-1]
+		if seen[b] {
+			continue
+		}
+		seen[b] = true
+		if b == cell {
+			continue
+		}
+		if b == to {
+			return true
+		}
+		work = append(work, b.Succs...)
+	}
+	return false
 }
